@@ -143,6 +143,7 @@ class SimSocket:
         self.tag = None
         self.fail_setblocking = False
         self.epipe = False
+        self._eagain_last = False
         net.opened.append(self._fd)
         net.log.ev("sock", self._fd, int(family))
 
@@ -291,12 +292,18 @@ class SimSocket:
         cap = net.tapes.draw("send_cap")
         if cap:
             if cap < 0:
-                # spurious EAGAIN although poll said writable (legal)
-                net.loop.faults["send_eagain"] += 1
-                raise BlockingIOError(errno.EAGAIN, os.strerror(errno.EAGAIN))
-            if cap < n:
+                # spurious EAGAIN although poll said writable: legal once, but a socket
+                # that is reported writable and refuses every send for ever is not a
+                # transport any more, so never twice in a row on one socket
+                if not self._eagain_last:
+                    self._eagain_last = True
+                    net.loop.faults["send_eagain"] += 1
+                    raise BlockingIOError(errno.EAGAIN, os.strerror(errno.EAGAIN))
+                cap = 0
+            if 0 < cap < n:
                 n = cap
                 net.loop.faults["partial_send"] += 1
+        self._eagain_last = False
         d = net.tapes.draw("delay")
         if d:
             net.loop.faults["delay"] += 1
